@@ -221,3 +221,144 @@ def gen_scenario(rng, router=None, length=None, style=None):
     ops.append(["q"])
     return {"router": router, "queue": rng.choice(["d", "d", "p"]), "n": n, "disc": disc, "hash": h, "rl": rl,
             "ops": ops[:80]}
+
+
+# --------------------------------------------------------------------------------------
+# shared evaluation: implementation run, model run, oracles (all scenarios in one pass)
+
+def load_corpus(prop):
+    d = os.path.join(ROOT, "corpus", prop)
+    out = []
+    if os.path.isdir(d):
+        for f in sorted(os.listdir(d)):
+            if f.endswith(".scn"):
+                for line in open(os.path.join(d, f)):
+                    line = line.strip()
+                    if line and not line.startswith("#"):
+                        s = parse_scn_line(line)
+                        s["corpus"] = f
+                        out.append(s)
+    return out
+
+
+def scenarios_from_replay(path):
+    out = []
+    for line in open(path):
+        if line.startswith("scenario: "):
+            out.append(parse_scn_line(line[len("scenario: "):].strip()))
+    return out
+
+
+def evaluate(tag, build, scns):
+    """returns per scenario: dict(impl=per-op events (chronological), model=..., a13=[...], a14=[...], stale=[...])"""
+    reqs, hl = hash_requests(scns)
+    htbl = hash_table(reqs, run_harness(build, "eng_factory", hl)) if hl else {}
+    impl_raw = run_harness(build, "eng_factory", [scn_line(s) for s in scns], shards=8)
+    impl = []
+    for s, line in zip(scns, impl_raw):
+        if line.strip() == "EHarnessPanic":
+            raise RuntimeError("harness panicked on scenario: " + scn_line(s))
+        impl.append(parse_term(line))
+    exprs = []
+    for s, it in zip(scns, impl):
+        args = scn_args(s, htbl)
+        c = cfg_term(s, htbl)
+        ops = "[" + "; ".join(op_term(o) for o in s["ops"]) + "]"
+        evs = impl_events_term(strip_diag(it))
+        common_args = f"{c} {s['n']} {disc_term(s['disc'])} {ops} {evs}"
+        exprs.append(f"(scenario_events {args}, check_C13 {common_args}, check_C14 {common_args}, "
+                     f"stale_completions {ops} {evs})")
+    vals = coq_eval(tag, IMPORTS, exprs)
+    res = []
+    for s, it, v in zip(scns, impl, vals):
+        t = parse_term(v)
+        assert t[0] == "tuple" and len(t) == 5, v[:200]
+        res.append({"impl": strip_diag(it), "model": t[1], "a13": t[2], "a14": t[3], "stale": t[4]})
+    return res, htbl
+
+
+def strip_diag(per_op):
+    return [[e for e in evs if not (isinstance(e, tuple) and e[0] == "EPortClosed")] for evs in per_op]
+
+
+def first_diff(s, impl, model):
+    a, b = norm_events(impl), norm_events(model)
+    for k, (x, y) in enumerate(zip(a, b)):
+        if x != y:
+            return k, x, y
+    if len(a) != len(b):
+        return min(len(a), len(b)), None, None
+    return None
+
+
+def model_cause(model, j):
+    for evs in model:
+        for e in evs:
+            if isinstance(e, tuple) and e[0] == "EDrop" and e[1] == j:
+                return e[2]
+    return None
+
+
+def job_key(s, j):
+    for op in s["ops"]:
+        if op[0] == "d" and int(op[1]) == j:
+            return int(op[2])
+    return None
+
+
+def actor_wid(events, aid):
+    for evs in events:
+        for e in evs:
+            if isinstance(e, tuple) and e[0] in ("EStart", "EEnd") and e[3] == aid:
+                return e[2]
+    return None
+
+
+def f3_signature(s, r, wid, key=None):
+    """F3: a Finished(w,k) processed after the death of the sending incarnation while the
+    replacement runs key k.  Read off the IMPLEMENTATION's log: worker `wid`'s actor ended a job
+    of key k while the factory was held, died before the release, and in the release op the
+    replacement started a job of the same key k."""
+    for pair in r["stale"]:
+        w, j = pair[1], pair[2]
+        if w != wid:
+            continue
+        k = job_key(s, j)
+        if key is not None and k != key:
+            continue
+        # op index where j ended, then the next release op
+        end_op = next((i for i, evs in enumerate(r["impl"])
+                       for e in evs if isinstance(e, tuple) and e[0] == "EEnd" and e[1] == j), None)
+        if end_op is None:
+            continue
+        rel = next((i for i in range(end_op, len(s["ops"])) if s["ops"][i][0] == "rel"), None)
+        if rel is None:
+            continue
+        for e in r["impl"][rel]:
+            if isinstance(e, tuple) and e[0] == "EStart" and e[2] == wid and job_key(s, e[1]) == k:
+                return {"worker": wid, "key": k, "stale_job": j, "release_op": rel, "replacement_job": e[1]}
+    return None
+
+
+def scn_stats(chk, s, r):
+    chk.count("router." + s["router"])
+    chk.count("queue." + s["queue"])
+    chk.count("disc." + s["disc"].split(":")[0])
+    if s.get("rl"):
+        chk.count("rate_limited_scenarios")
+    for op in s["ops"]:
+        chk.count("op." + op[0])
+    for evs in r["impl"]:
+        for e in evs:
+            if isinstance(e, tuple):
+                chk.count("ev." + e[0] + ("." + str(e[2]) if e[0] == "EDisc" else ""))
+    if r["stale"]:
+        chk.count("histories_with_stale_completion")
+
+
+def nontrivial(s, r):
+    """a scenario that reached the phase the properties are about: at least two jobs started and
+    at least one of {death, resize, hold, discard, ttl} happened"""
+    starts = sum(1 for evs in r["impl"] for e in evs if isinstance(e, tuple) and e[0] == "EStart")
+    special = any(op[0] in ("k", "f", "p", "r", "sw", "hold", "t", "stop", "drain") for op in s["ops"])
+    return starts >= 2 and special
